@@ -182,10 +182,10 @@ Qed.
    conversion to Tres — literally the text the translator emits for every To<T>. *)
 Definition cast_shape (Tlo Thi Tres : gty) (lo hi : Z) (C : gty) (i : val) : res val :=
   (go_if (arg__1 <- (Ok i) ;; arg__2 <- (go_const Tlo lo) ;; lessThanLowerBoundary C Tlo arg__1 arg__2)
-    ((go_const Tres lo))
-    ((go_if (arg__3 <- (Ok i) ;; arg__4 <- (go_const Thi hi) ;; greaterThanUpperBoundary C Thi arg__3 arg__4)
-      ((go_const Tres hi))
-      ((go_conv C Tres (Ok i)))))).
+    (fun _ => (go_const Tres lo))
+    (fun _ => (go_if (arg__3 <- (Ok i) ;; arg__4 <- (go_const Thi hi) ;; greaterThanUpperBoundary C Thi arg__3 arg__4)
+      (fun _ => (go_const Tres hi))
+      (fun _ => (go_conv C Tres (Ok i)))))).
 
 Definition fl_intval (f : fl) : option Z :=
   match f with Fin m e => if 0 <=? e then Some (m * 2 ^ e) else None | _ => None end.
